@@ -18,6 +18,7 @@ import (
 	"time"
 
 	"github.com/getlantern/bytemap"
+	"github.com/getlantern/goexpr"
 	"github.com/getlantern/zenodb/core"
 	"github.com/getlantern/zenodb/encoding"
 	"github.com/getlantern/zenodb/expr"
@@ -263,6 +264,73 @@ func zxC11Validate() {
 	vrtReach("C11.V")
 }
 
+
+// C10.G — a table whose own GROUP BY drops a dimension of the inbound points and that has no
+// PARTITION BY: points are routed to partitions by the hash of all their raw dimensions (harness
+// R), so the points (x=1, y=1) and (x=1, y=2) can live on different partitions and both belong to
+// the table row {x:1}. A stand-alone node holds one row {x:1} with a = a1 + a2; the cluster must
+// answer every query as that node does (partitions answered by the real local planner).
+//
+//zx:harness prop=C10+C06 id=C10.G tier=quick mode=real
+func zxC10GroupByAllPushdown() {
+	queries := []string{"SELECT * FROM u", "SELECT a FROM u GROUP BY *", "SELECT a FROM u GROUP BY x", "SELECT a FROM u GROUP BY _"}
+	q := queries[vrtShape("q", len(queries))]
+	fields := zxTableFields()
+	a1, a2 := vrtFloat64("a1"), vrtFloat64("a2")
+	vrtAssume(vrtAnd(vrtFinite(a1), vrtFinite(a2)))
+	groupBy := []core.GroupBy{core.NewGroupBy("x", goexpr.Param("x"))}
+	key := bytemap.New(map[string]interface{}{"x": 1})
+	mk := func(pts float64, a float64) core.Vals {
+		return core.Vals{zxSeqOf(fields[0].Expr, [3]float64{pts}, 1), zxSeqOf(fields[1].Expr, [3]float64{a}, 1), zxSeqOf(fields[2].Expr, [3]float64{0}, 1)}
+	}
+	tableOf := func(rows ...core.Vals) *zxTable {
+		t := &zxTable{name: "u", fields: fields, groupBy: groupBy}
+		for _, r := range rows {
+			t.keys = append(t.keys, key)
+			t.vals = append(t.vals, r)
+		}
+		return t
+	}
+	whole := tableOf(mk(2, a1+a2))
+	parts := []*zxTable{tableOf(mk(1, a1)), tableOf(mk(1, a2))}
+	localPlan, localErr := Plan(q, zxOpts(map[string]*zxTable{"u": whole}))
+	opts := zxOpts(map[string]*zxTable{"u": whole})
+	opts.QueryCluster = func(ctx context.Context, sqlString string, isSubQuery bool, subQueryResults [][]interface{}, unflat bool, onFields core.OnFields, onRow core.OnRow, onFlatRow core.OnFlatRow) (interface{}, error) {
+		for p, part := range parts {
+			popts := zxOpts(map[string]*zxTable{"u": part})
+			popts.IsSubQuery = isSubQuery
+			popts.SubQueryResults = subQueryResults
+			plan, err := Plan(sqlString, popts)
+			if err != nil {
+				return nil, err
+			}
+			of := onFields
+			if p > 0 {
+				of = core.FieldsIgnored
+			}
+			if unflat {
+				_, err = core.UnflattenOptimized(plan).Iterate(ctx, of, onRow)
+			} else {
+				_, err = plan.Iterate(ctx, of, onFlatRow)
+			}
+			if err != nil {
+				return nil, err
+			}
+		}
+		return nil, nil
+	}
+	clusterPlan, clusterErr := Plan(q, opts)
+	vrtAssert(localErr == nil && clusterErr == nil, "the query plans locally and for a cluster: "+q)
+	if localErr != nil || clusterErr != nil {
+		return
+	}
+	lrows, _, lerr := zxRun(localPlan)
+	crows, _, cerr := zxRun(clusterPlan)
+	vrtAssert(lerr == nil && cerr == nil, "both plans run: "+q)
+	vrtAssert(len(lrows) == len(crows), "the cluster returns as many rows as the stand-alone node ("+zxItoa(len(lrows))+"): "+q)
+	vrtAssert(zxSameRows(lrows, crows, false), "the cluster returns the stand-alone node's rows: "+q)
+	vrtReach("C10.G")
+}
 
 // ---- C08 -------------------------------------------------------------------------------------
 
